@@ -4,6 +4,7 @@ call graph).  Nothing here looks at source text."""
 import glob
 import hashlib
 import json
+import re
 import os
 import subprocess
 import sys
@@ -506,10 +507,38 @@ class Program:
                         out.add(cu)
                     else:
                         out |= self._container_edges(n)
+                        mk = self.makes(f, n)
+                        if mk:
+                            out.add(mk['usr'])
                 # destructors of automatic objects / temporaries of repo classes
                 cg[f.usr] = out
             self._cg = cg
         return self._cg
+
+    def makes(self, f, n):
+        """std::make_shared<T>(args) / std::make_unique<T>(args) constructs a T from args: the repo
+        constructor it selects (by class and number of arguments), as {'class', 'usr', 'nparams'}; else None"""
+        if 'makes' in n:
+            return n['makes']
+        n['makes'] = None
+        c = n.get('callee', {})
+        if n['k'] != 'CallExpr' or c.get('qname') not in ('std::make_shared', 'std::make_unique'):
+            return None
+        m = re.match(r'^std::(?:shared|unique)_ptr<(.*)>$', c.get('ret', ''))
+        if not m:
+            return None
+        cls = m.group(1)
+        k = len(n.get('args', []))
+        cands = [g for g in self.funcs.values() if g.kind == 'ctor' and g.cls == cls and len(g.params) == k]
+        if k == 1:
+            # copy construction vs a one-argument constructor: decided by the argument's type
+            at = f.nodes[f.strip(n['args'][0], 'noop')].get('t', '').replace('const ', '').strip()
+            cands = [g for g in cands if (g.rec.get('copy') or g.rec.get('move')) == (at == cls)] or cands
+        if len(cands) == 1:
+            n['makes'] = {'class': cls, 'usr': cands[0].usr, 'nparams': k}
+        elif not cands and cls in self.classes:
+            n['makes'] = {'class': cls, 'usr': None, 'nparams': k}
+        return n['makes']
 
     def _container_edges(self, n):
         c = n['callee']
